@@ -5,11 +5,9 @@
        a one-pass run of the scalar solve from 5/4 with delta = 1/4, tol = 1 that answers
        Ok (5/4 + 3/304) after the three calls 3/2, 1, 5/4. *)
 From Coq Require Import List Arith Lia Reals Lra Psatz ZArith QArith Qcanon.
-From Coquelicot Require Import Coquelicot.
-From Interval Require Import Tactic.
 From OV Require Import Base.Panic Base.Arith Model.Vector Model.Matrix Model.Solve Model.Newton Inst.QcInst
   Proofs.Matrix Proofs.SolveBase Proofs.Solve Proofs.NewtonLoop Proofs.Newton Proofs.NewtonJac Proofs.NewtonSys
-  Proofs.NewtonReal Proofs.Newton2Sys Proofs.Newton2Real Proofs.Newton2Scalar Proofs.Newton2Mono Proofs.Newton2Diag.
+  Proofs.NewtonReal Proofs.Newton2Deriv Proofs.Newton2Sys Proofs.Newton2Real Proofs.Newton2Scalar Proofs.Newton2Mono Proofs.Newton2Diag.
 Import ListNotations.
 
 (* ---------------- linear systems ---------------- *)
@@ -43,7 +41,7 @@ Definition cube2' (x : R) : R := 3 * x * x.
 Definition rc : R := exp (ln 2 / 3).
 
 Lemma cube2_der c : derivable_pt_lim cube2 c (cube2' c).
-Proof. unfold cube2, cube2'. apply is_derive_Reals. auto_derive; [exact I|ring]. Qed.
+Proof. unfold cube2, cube2'. dpoly. Qed.
 
 Lemma rc_root : cube2 rc = 0.
 Proof.
@@ -53,7 +51,19 @@ Proof.
 Qed.
 
 Lemma rc_bounds : 12 / 10 <= rc <= 13 / 10.
-Proof. unfold rc. split; interval. Qed.
+Proof.
+  pose proof rc_root as Hr. unfold cube2 in Hr.
+  assert (Hp : 0 < rc) by (unfold rc; apply exp_pos).
+  split.
+  - destruct (Rle_dec (12 / 10) rc) as [|N]; [assumption|]. exfalso.
+    assert (H1 : rc < 12 / 10) by lra.
+    assert (H2 : rc * rc < 12 / 10 * (12 / 10)) by nra.
+    assert (H3 : rc * rc * rc < 12 / 10 * (12 / 10) * (12 / 10)) by nra. lra.
+  - destruct (Rle_dec rc (13 / 10)) as [|N]; [assumption|]. exfalso.
+    assert (H1 : 13 / 10 < rc) by lra.
+    assert (H2 : 13 / 10 * (13 / 10) < rc * rc) by nra.
+    assert (H3 : 13 / 10 * (13 / 10) * (13 / 10) < rc * rc * rc) by nra. lra.
+Qed.
 
 Lemma cube2_lo c : 1 <= c <= 2 -> 3 <= Rabs (cube2' c).
 Proof. intros H. unfold cube2'. rewrite Rabs_right; nra. Qed.
@@ -99,10 +109,10 @@ Qed.
 
 (* higher derivatives of x^3 - 2 and the pass of cube2_run, for the central-difference bound *)
 Lemma cube2_der2 c : derivable_pt_lim cube2' c (6 * c).
-Proof. unfold cube2'. apply is_derive_Reals. auto_derive; [exact I|ring]. Qed.
+Proof. unfold cube2'. dpoly. Qed.
 
 Lemma cube2_der3 c : derivable_pt_lim (fun x => 6 * x) c 6.
-Proof. apply is_derive_Reals. auto_derive; [exact I|ring]. Qed.
+Proof. dpoly. Qed.
 
 Lemma cube2_pass :
   scalar_step NRl 1 (1 / 4) (fun t => Ok (cube2 t)) (5 / 4) =
